@@ -156,6 +156,8 @@ enum {
   X(void*, jv_wk_sk_barray, (const void* sk)) \
   X(void, jv_wk_sk_set_l, (void* sk, int l)) \
   X(void, jv_wk_sk_set_bidx, (void* sk, int i, uint32_t idx)) \
+  X(void, jv_wk_sk_set_barray, (void* sk, void* barray)) \
+  X(void, jv_wk_params_set_harray, (void* p, void* harray)) \
   X(void, jv_apair_set, (void* arr, size_t i, const void* g1a, const void* g2a)) \
   X(void, jv_ppair_set, (void* arr, size_t i, const void* g1a, const void* g2p)) \
   /* ---- bls12_381 API, both views ---- */ \
